@@ -70,6 +70,7 @@ pub fn length_sweep(ctx: &mut Ctx) {
     condition_kind_probes(ctx);
     provenance_probes(ctx);
     nested_same_kind_probes(ctx);
+    every_operator_as_element_probes(ctx);
     stale_output_probes(ctx);
     if prop == "C02" || prop == "C06" || prop == "C04" {
         return;
@@ -1441,6 +1442,45 @@ pub fn nested_same_kind_probes(ctx: &mut Ctx) {
 /// keys must agree with the real lexer on every metacharacter.
 pub fn lexer_key_probes(ctx: &mut Ctx) {
     let prop = ctx.prop.clone();
+    if prop == "C12" {
+        // key LISTS over the lexer keys: every ordered pair (a repeated key included) and the triples around each pair,
+        // on data that tells `x -> "" -> f` from `x -> f`: what is worked out for one key of a list (its section, its
+        // split) says nothing about its neighbour
+        let keys = [".a", ".b", "a.", "a..b", "a..c", "form..name", "form..email", "form..phone", "form.name", "", ".", "..", "a.b", "a.c", "a\\.b", "x\\", "b.0", "b.-1", "zz"];
+        let datas = [json!({"a": 1, "b": [10, 20], "": {"a": "ea", "": "ee"}, "form": {"": {"name": "n", "email": "e"}, "phone": "p"}}), json!({"a": {"": {"b": 1}, "b": 2}, "form": {"name": 1}, "x": 1}), json!({"": 1}), json!([1, 2])];
+        for k1 in keys {
+            if !ctx.mine() {
+                continue;
+            }
+            for k2 in keys {
+                ctx.edge();
+                for d in &datas {
+                    // oracle-free: a key is reported iff `var` with a sentinel default cannot find it (R leaves empty
+                    // segments unspecified; the two operators must agree with each other all the same)
+                    let sentinel = json!("\u{a7}SENTINEL\u{a7}");
+                    let r = json!({"missing": [k1, k2, k1]});
+                    let o = ctx.exec(&r, d);
+                    if let Some(Value::Array(rep)) = o.ok() {
+                        for k in [k1, k2] {
+                            let ov = ctx.exec(&json!({"var": [k, sentinel]}), d);
+                            if let Some(v) = ov.ok() {
+                                let absent = *v == sentinel || v.is_null();
+                                let reported = rep.contains(&json!(k));
+                                if absent != reported {
+                                    ctx.law_fail("law:missing-vs-var:key-lists", &r, d, format!("{:?} reported iff var cannot find it (var: {})", k, ov.show()), o.show());
+                                }
+                            }
+                        }
+                    }
+                    ctx.check("lexer-keys:pairs", &json!({"missing": [k1, k2]}), d);
+                    ctx.check("lexer-keys:pairs", &json!({"missing": [k1, k2, k1, "zz", k2]}), d);
+                    ctx.check("lexer-keys:pairs", &json!({"missing_some": [1, [k1, k2]]}), d);
+                    ctx.check("lexer-keys:pairs", &json!({"missing_some": [2, [k2, k1, k1]]}), d);
+                }
+            }
+        }
+        return;
+    }
     if !["C05", "C06", "C13", "C14"].contains(&prop.as_str()) {
         return;
     }
@@ -1468,6 +1508,46 @@ pub fn lexer_key_probes(ctx: &mut Ctx) {
             dd["es"] = elems.clone();
             for r in rules {
                 ctx.check("lexer-keys:whole-condition", &r, &dd);
+            }
+        }
+    }
+}
+
+/// EVERY operator (eager, lazy, data - all 35, each with a succeeding operand vector, bracketed and bare) as an
+/// element expression of a literal collection under all / some / none (where elements are evaluated) and under
+/// map / filter / reduce (where a literal array is data): one decision "is this an operation?", the parser's, whichever
+/// operator family the element belongs to.
+pub fn every_operator_as_element_probes(ctx: &mut Ctx) {
+    let prop = ctx.prop.clone();
+    if !["C02", "C13", "C14"].contains(&prop.as_str()) {
+        return;
+    }
+    let d = json!({"a": 1, "xs": [1, 2], "s": "str"});
+    for k in crate::refmodel::OPS {
+        if !ctx.mine() {
+            continue;
+        }
+        for n in 0..=3usize {
+            if !crate::refmodel::arity_ok(k, n) {
+                continue;
+            }
+            ctx.edge();
+            let args = crate::spaces::c03::benign(k, n);
+            let mut elems = vec![al::op(k, args.clone())];
+            if n == 1 && !args[0].is_array() {
+                elems.push(al::obj1(k, args[0].clone()));
+            }
+            for e in elems {
+                let colls = [json!([e]), json!([1, e]), json!([e, 0, e]), json!([[e]]), json!([{"k": e}])];
+                for c in colls {
+                    let rules: Vec<Value> = match prop.as_str() {
+                        "C13" => vec![json!({"map": [c, {"var": ""}]}), json!({"filter": [c, true]}), json!({"reduce": [c, {"merge": [{"var": "accumulator"}, [{"var": "current"}]]}, []]})],
+                        _ => vec![json!({"all": [c, {"var": ""}]}), json!({"some": [c, {"===": [{"var": ""}, 1]}]}), json!({"none": [c, {"!": [{"var": ""}]}]}), json!({"some": [c, {"var": "k"}]}), json!({"all": [c, {"var": "0"}]})],
+                    };
+                    for r in rules {
+                        ctx.check("every-operator-as-element", &r, &d);
+                    }
+                }
             }
         }
     }
